@@ -33,6 +33,7 @@ func init() {
 			in[v] = t.In(v)
 			io[v] = t.IDom(v)
 		}
+		appendProbe("DomTree.Out", ch)
 		return fmt.Sprintf("%d %s %s %s", n, fmtIntss(ch), fmtIntss(in), fmtInts(io))
 	}
 	execs["df"] = func(a []Tok) string {
@@ -42,7 +43,9 @@ func init() {
 		if a[2].Int() == 0 {
 			idom = graphalg.IDom(g, root)
 		}
-		return fmtIntss(graphalg.DomFrontier(g, root, idom))
+		df := graphalg.DomFrontier(g, root, idom)
+		appendProbe("DomFrontier", df)
+		return fmtIntss(df)
 	}
 	gens["C19"] = genC19
 }
